@@ -148,6 +148,13 @@ def parseSrc (j : Json) : Except String (List (Ev Val)) := do
   let evs := if gen then cutAfterErr evs else evs
   return if srcIgnore then ignoreErr none evs else evs
 
+/-- `Ref.CleanRun` as a Boolean: no skippable error is passed on between operators -/
+def cleanRunB (ignore : Bool) : List Op → List (Ev Val) → Bool
+  | [], evs => evs.all fun ev => match ev with | .error e => terminal ignore e | .ok _ => true
+  | op :: ops, evs =>
+    (evs.all fun ev => match ev with | .error e => terminal ignore e | .ok _ => true) &&
+      cleanRunB ignore ops (Ref.opEvents ignore op op.s0 evs)
+
 def argsJson (a : List Val × List (String × Val)) : Json :=
   Json.mkObj [("a", Json.arr (a.1.map valJson).toArray),
               ("k", Json.mkObj (a.2.map fun (k, v) => (k, valJson v)))]
@@ -179,10 +186,16 @@ def handle (j : Json) : Except String Json := do
     let unbatched := ops.all fun op => op.fnBatch == 0 && op.batch == 0
     let refPart : List (String × Json) :=
       if unbatched then
+        -- the reference of the theorems (`sem` lifted to streams, operator after operator) and the
+        -- record-after-record formulation (which also says what every sink has seen)
+        let (rout, rerr) := observe (Ref.chainEvents ignore ops src)
         let rr := Ref.chain ignore ops src
-        [("ref_out", Json.arr (rr.out.map valJson).toArray),
-         ("ref_err", match rr.err with | none => Json.null | some e => Driver.errJson e.kind),
-         ("ref_logs", logsOf rr.logs)]
+        [("ref_clean", toJson (cleanRunB ignore ops src)),
+         ("ref_out", Json.arr (rout.map valJson).toArray),
+         ("ref_err", match rerr with | none => Json.null | some e => Driver.errJson e.kind),
+         ("ref_logs", logsOf rr.logs),
+         ("ref2_out", Json.arr (rr.out.map valJson).toArray),
+         ("ref2_err", match rr.err with | none => Json.null | some e => Driver.errJson e.kind)]
       else []
     return Json.mkObj (base ++ refPart)
 
